@@ -6,22 +6,22 @@ func init() {
 		"reference models of DESIGN.md §7 encode the property statement",
 		"sampling, not enumeration: only the DFS-root rotations are complete per model",
 	}
-	specs["C04"] = &propSpec{engine: "wgsim", quickN: 16000, thorN: 400000, quickS: 60, thorS: 1500,
+	specs["C04"] = &propSpec{engine: "wgsim", quickN: 16000, thorN: 400000, quickS: 60, thorS: 900,
 		rule:    "one workload = one generated model; one evaluation = one Build of it under one schedule of the family {canonical, reverse-all, lastfirst-all, rotate-all-k and rotate-root-k for every k < #nodes, random tapes over all map sites + ULID clock faults}; distinct = distinct seam-event-log fingerprint; non-trivial = the model has a cycle or an intersection/exclusion AND at least one fault fired in the run",
 		mustHit: []string{"map.rotate", "map.reverse", "map.shuffle"}, assume: wgAssume}
-	specs["C05"] = &propSpec{engine: "wgsim", quickN: 16000, thorN: 400000, quickS: 60, thorS: 1500,
+	specs["C05"] = &propSpec{engine: "wgsim", quickN: 16000, thorN: 400000, quickS: 60, thorS: 900,
 		rule: specs["C04"].rule, mustHit: []string{"map.rotate", "map.reverse", "map.shuffle"}, assume: wgAssume}
-	specs["C06"] = &propSpec{engine: "wgsim", quickN: 16000, thorN: 400000, quickS: 60, thorS: 1500,
+	specs["C06"] = &propSpec{engine: "wgsim", quickN: 16000, thorN: 400000, quickS: 60, thorS: 900,
 		rule:    specs["C04"].rule + "; plus permuted type definitions, permuted commutative operands, and 2-3 concurrent builder tasks under seeded preemption",
 		mustHit: []string{"map.rotate", "map.reverse", "map.shuffle", "deliver.permute", "preempt"}, assume: wgAssume}
-	specs["C10"] = &propSpec{engine: "wgsim", quickN: 16000, thorN: 400000, quickS: 60, thorS: 1500,
+	specs["C10"] = &propSpec{engine: "wgsim", quickN: 16000, thorN: 400000, quickS: 60, thorS: 900,
 		rule: specs["C04"].rule, mustHit: []string{"map.rotate", "clock.back", "clock.stall"}, assume: wgAssume}
-	specs["C11"] = &propSpec{engine: "wgsim", quickN: 16000, thorN: 400000, quickS: 60, thorS: 1500,
+	specs["C11"] = &propSpec{engine: "wgsim", quickN: 16000, thorN: 400000, quickS: 60, thorS: 900,
 		rule: specs["C04"].rule, mustHit: []string{"map.rotate", "map.reverse", "map.shuffle"}, assume: wgAssume}
 }
 
 func init() {
-	specs["C17"] = &propSpec{engine: "plainsim", quickN: 5000, thorN: 120000, quickS: 60, thorS: 1500,
+	specs["C17"] = &propSpec{engine: "plainsim", quickN: 5000, thorN: 120000, quickS: 60, thorS: 900,
 		rule:    "one workload = one generated model (any rewrite shape, multi-line node pairs and computed-only cycles biased in); one evaluation = build + DOT + Reversed + Reversed twice + all-pairs PathExists + label lookup + GetCycles under one schedule over the gonum map iterators / map ranges and the ULID clock; distinct = distinct seam-event-log fingerprint; non-trivial = two lines join one node pair or the model has a cycle, AND at least one fault fired",
 		mustHit: []string{"map.reverse", "map.rotate", "map.shuffle", "clock.back"},
 		assume:  []string{"the gonum iterator overlay (sorted + permuted keys instead of reflect.MapIter) only produces orders the runtime may produce", "reference plain graph of DESIGN.md §7.7 encodes the statement", "edge conditions are not observable through the plain graph's API and are not compared"}}
@@ -34,21 +34,21 @@ func init() {
 		"two different files under one name are not generated (the statement is silent on them)",
 	}
 	rule := "one workload = one generated module set (1-4 modules, <= 8 files, extensions, 0-3 injected conflicts, delivery order possibly with one file twice); one evaluation = one TransformModuleFilesToModel call under one schedule over the six merger map sites (canonical, reverse, last-first, rotations of every site and of the extension site, random tapes), plus cold/warm parser history, permuted delivery orders and 2-3 concurrent merges under seeded preemption; distinct = distinct seam-event-log fingerprint; non-trivial = >= 2 extension blocks or >= 1 conflict, AND at least one fault fired"
-	specs["C07"] = &propSpec{engine: "mergesim", quickN: 8000, thorN: 160000, quickS: 60, thorS: 1500, rule: rule,
+	specs["C07"] = &propSpec{engine: "mergesim", quickN: 8000, thorN: 160000, quickS: 60, thorS: 900, rule: rule,
 		mustHit: []string{"map.reverse", "map.rotate", "map.shuffle", "deliver.permute"}, assume: mAssume}
-	specs["C12"] = &propSpec{engine: "mergesim", quickN: 8000, thorN: 160000, quickS: 60, thorS: 1500, rule: rule,
+	specs["C12"] = &propSpec{engine: "mergesim", quickN: 8000, thorN: 160000, quickS: 60, thorS: 900, rule: rule,
 		mustHit: []string{"map.reverse", "map.rotate", "map.shuffle", "deliver.permute", "restart.cold", "history.warm", "preempt"}, assume: mAssume}
 }
 
 func init() {
-	specs["C13"] = &propSpec{engine: "puresim", race: true, quickN: 4000, thorN: 80000, quickS: 70, thorS: 1500,
+	specs["C13"] = &propSpec{engine: "puresim", race: true, quickN: 4000, thorN: 80000, quickS: 70, thorS: 900,
 		rule:    "one workload = an input pool (generated models as DSL/JSON/shared proto, mutated and truncated DSL, module sets, fga.mod texts, validator strings), an optional warm-up history, an optional cold restart of the parser caches, and 1-4 simulated caller tasks with 1-5 public API calls each, some on one shared input object; one evaluation = that workload executed under one seeded schedule (preemption at ~900 yield points and every ANTLR lock, lock contention, map-order and ULID-clock faults), every result compared with the sequential cold reference computed afterwards, every input compared with its deep copy; every 40th (thorough: 10th) workload also executes its first call as the very first operation of a fresh OS process (restart.process) and compares; a sixth as many further workloads run in a -race build under the race-detector-invisible scheduler; distinct = distinct seam-event-log fingerprint; non-trivial = more than one task, or a warm history, or a cold restart, AND at least one fault fired",
 		mustHit: []string{"preempt", "lock.contend", "restart.cold", "history.warm", "restart.process"},
 		assume:  []string{"the stateless sequential specification out = f(in): a concurrent history is linearizable iff every completed call returned the sequential reference value (no search needed)", "interleavings are explored at inserted yield points (function entries, loop iterations, lock acquisitions); the race detector needs no physical overlap", "for the weighted graph only the verdict and the graph are compared, not which of several applicable sentinel errors is returned"}}
 }
 
 func init() {
-	specs["C14"] = &propSpec{engine: "rendersim", quickN: 6000, thorN: 120000, quickS: 60, thorS: 1500,
+	specs["C14"] = &propSpec{engine: "rendersim", quickN: 6000, thorN: 120000, quickS: 60, thorS: 900,
 		rule:    "one workload = one generated model (DSL expressible; conditions with several parameters; for ~2/3 modular attribution of types, relations and conditions with ties and unattributed items), rendered with and without source information; one evaluation = one TransformJSONProtoToDSL / TransformJSONStringToDSL call under one schedule over the printer's three map sites (canonical, reverse, last-first, rotations, random tapes), or on a JSON re-encoding with shuffled object keys, or with permuted type definitions (modular models), or repeated; distinct = distinct seam-event-log fingerprint; non-trivial = at least one fault fired",
 		mustHit: []string{"map.reverse", "map.rotate", "map.shuffle", "deliver.permute", "history.warm"},
 		assume:  []string{"the documented order (worker/rendersim.go expectedOrder) encodes the statement: relations by name, or (module, file, name) with unattributed first for modular models; conditions likewise; parameters by name", "models are rendered from the harness's own proto builder (This as a non-empty oneof)"}}
